@@ -960,6 +960,13 @@ def tab5bc(units, R):
     if len(counters) != 1:
         raise AnalysisBroken('TAB5b: print_string_ptr: the counting loop changes %s' % sorted(counters))
     counter = next(iter(counters))
+    # bytes handed to a function of the unit to be written (a bounded escape writer): what it writes, and how much of it when its
+    # room is short, is not evaluated by this rule
+    eout_name = eout if isinstance(eout, str) else eout[0]
+    for c_ in fn.calls():
+        if callee_name(c_) in u.functions and any(strip_casts(a_).get('k') == 'ref' and strip_casts(a_).get('n') == eout_name for a_ in c_['args']):
+            raise AnalysisBroken('TAB5b: %s: print_string_ptr hands its output cursor to %s; the text that function writes is not evaluated '
+                                 'by this rule' % (fn.where(c_), callee_name(c_)))
     counted, text_of = {}, {}
     for b in range(1, 256):
         cs = [sg for sg in csegs if b in sg.bytes_at(cin)]
